@@ -299,6 +299,99 @@ Definition qstring (q : queue) : res (queue * list byte) :=
     Ok (set_buf q1 b, s).
 
 (* ------------------------------------------------------------------ *)
+(* mpt++/io_queue.cpp: class io::queue; its member [_d] is the queue.  Thin
+   compositions of the functions above; [fill] is what realloc leaves in new
+   storage (reported by the harness set-up, see qresize). *)
+
+(* io::queue::prepare: (!len || mpt_queue_prepare(&_d, len)) *)
+Definition ioprepare (q : queue) (n : nat) (fill : byte) : res queue :=
+  if n =? 0 then Ok q else
+  do '(q1, room) <- qprepare q n fill;
+  if room =? 0 then Err MissingBuffer else Ok q1.
+
+(* io::queue::push / unshift: the result of mpt_queue_prepare is ignored *)
+Definition iopush (q : queue) (d : list byte) (fill : byte) : res queue :=
+  match qprepare q (length d) fill with
+  | Ok (q1, _) => qpush q1 d
+  | Err _ => qpush q d
+  | Fault => Fault
+  end.
+
+Definition iounshift (q : queue) (d : list byte) (fill : byte) : res queue :=
+  match qprepare q (length d) fill with
+  | Ok (q1, _) => qunshift q1 d
+  | Err _ => qunshift q d
+  | Fault => Fault
+  end.
+
+(* io::queue::pop(0, len): mpt_queue_crop(&_d, _d.len - len, len).  For len > _d.len
+   the position is computed modulo 2^64 and lies beyond every stored byte, which
+   queue_crop refuses in its "start position out of range" branch. *)
+Definition iopop0 (q : queue) (n : nat) : res queue :=
+  if qlen q <? n then Err BadArgument else qcrop q (qlen q - n) n.
+
+(* io::queue::write(len, d, part); [elems] are the len elements of [part] bytes.
+   Transcribed AS PATCHED by docs/C13_io_write.diff: the loop ends when mpt_qpush
+   reports an error (< 0); the unpatched test (!mpt_qpush(..)) ends it on success. *)
+Fixpoint iowrite_loop (q : queue) (elems : list (list byte)) (done : nat) : res (queue * nat) :=
+  match elems with
+  | [] => Ok (q, done)
+  | e :: r =>
+    match qpush q e with
+    | Ok q1 => iowrite_loop q1 r (S done)
+    | Err _ => Ok (q, done)
+    | Fault => Fault
+    end
+  end.
+
+Definition iowrite (q : queue) (part : nat) (elems : list (list byte)) (fill : byte) : res (queue * nat) :=
+  let cnt := length elems in
+  if part =? 0 then
+    do q1 <- ioprepare q cnt fill; Ok (q1, cnt)
+  else
+    do q1 <- match ioprepare q (part * cnt) fill with
+             | Ok q1 => Ok q1
+             | Err _ => match ioprepare q part fill with Ok q2 => Ok q2 | Err _ => Ok q | Fault => Fault end
+             | Fault => Fault
+             end;
+    iowrite_loop q1 elems 0.
+
+(* io::queue::read(len, d, part): elements are taken from the END (mpt_qpop) *)
+Fixpoint ioread_loop (q : queue) (cnt part done : nat) (acc : list byte) : res (queue * (nat * list byte)) :=
+  match cnt with
+  | 0 => Ok (q, (done, acc))
+  | S c =>
+    match qpop q part true with
+    | Ok (q1, d) => ioread_loop q1 c part (S done) (acc ++ d)
+    | Err _ => Ok (q, (done, acc))
+    | Fault => Fault
+    end
+  end.
+
+(* io::queue::peek(len): the bytes of the returned span *)
+Definition iopeek (q : queue) (n : nat) : res (queue * list byte) :=
+  let '(base, low) := qdata q in
+  let len := if n =? 0 then qlen q else n in
+  if len <=? low then
+    do d <- rd (qbuf q) base low; Ok (q, d)
+  else if negb (qfrag q) then
+    do d <- rd (qbuf q) base (qlen q); Ok (q, d)
+  else
+    do q1 <- qalign q 0;
+    do d <- rd (qbuf q1) 0 (qlen q1);
+    Ok (q1, d).
+
+(* ~queue() followed by queue(len) *)
+Definition ionew (q : queue) (n : nat) (fill : byte) : res queue :=
+  do q0 <- qresize q 0 fill;
+  if n =? 0 then Ok q0
+  else match qprepare q0 n fill with
+       | Ok (q1, _) => Ok q1
+       | Err _ => Ok q0
+       | Fault => Fault
+       end.
+
+(* ------------------------------------------------------------------ *)
 (* operations as data, for histories *)
 Inductive qop :=
 | OpPush (d : list byte)
@@ -312,13 +405,24 @@ Inductive qop :=
 | OpResize (n : nat) (fill : byte)
 | OpPrepare (n : nat) (fill : byte)
 | OpFind (esz : nat) (key : byte)
-| OpString.
+| OpString
+(* mpt++ io::queue *)
+| OpIoPrepare (n : nat) (fill : byte)
+| OpIoPush (d : list byte) (fill : byte)
+| OpIoUnshift (d : list byte) (fill : byte)
+| OpIoPop (n : nat) (hasdata : bool)
+| OpIoShift (n : nat) (hasdata : bool)
+| OpIoWrite (part : nat) (elems : list (list byte)) (fill : byte)
+| OpIoRead (cnt part : nat)
+| OpIoPeek (n : nat)
+| OpIoNew (n : nat) (fill : byte).
 
 (* observable outcome of one operation *)
 Inductive qout :=
 | ODone                      (* accepted, nothing returned *)
 | OBytes (d : list byte)     (* accepted, these bytes returned *)
 | OPos (p : option nat)      (* search result *)
+| OCount (n : nat) (d : list byte)   (* accepted: number of elements transferred, bytes returned *)
 | ORefused (e : err)
 | OFault.
 
@@ -344,6 +448,19 @@ Definition qstep (q : queue) (o : qop) : queue * qout :=
   | OpFind e k => match qfind q e k with
                   | Ok p => (q, OPos p) | Err e => (q, ORefused e) | Fault => (q, OFault) end
   | OpString => lift2 q (qstring q)
+  | OpIoPrepare n f => lift1 q (ioprepare q n f)
+  | OpIoPush d f => lift1 q (iopush q d f)
+  | OpIoUnshift d f => lift1 q (iounshift q d f)
+  | OpIoPop n h => if h then lift2 q (qpop q n true) else lift1 q (iopop0 q n)
+  | OpIoShift n h => if h then lift2 q (qshift q n true) else lift1 q (qcrop q 0 n)
+  | OpIoWrite part elems f =>
+    match iowrite q part elems f with
+    | Ok (q', k) => (q', OCount k []) | Err e => (q, ORefused e) | Fault => (q, OFault) end
+  | OpIoRead cnt part =>
+    match ioread_loop q cnt part 0 [] with
+    | Ok (q', (k, d)) => (q', OCount k d) | Err e => (q, ORefused e) | Fault => (q, OFault) end
+  | OpIoPeek n => lift2 q (iopeek q n)
+  | OpIoNew n f => lift1 q (ionew q n f)
   end.
 
 (* the byte sequence held by the queue: index i lives at (off + i) wrapped *)
